@@ -174,6 +174,10 @@ def check(rep, F, tier, replay=None):
             if not ok:
                 rep.violation("SIGN-gate", "BigInt::as_u64", "BigInt::as_u64 answers Some(..) on a path that never tests the sign: for a negative value whose magnitude fits into 64 bits it returns the magnitude (BigInt(-1).as_u64() = Some(1)) instead of None", {})
                 break
+    # KEY-ord: the order of asset-map keys separates different names
+    rep.rule("KEY-ord", "AssetName's Ord - the key order of every Assets / MintAssets BTreeMap, on which Value addition, subtraction and comparison merge and match quantities - compares lengths first and the bytes only on equal length: it is Equal exactly for equal names. An order that identifies different names (leading zero bytes ignored) merges the quantities of two assets: a + b != b + a, spurious overflow, a wrong comparison")
+    from ruleutil import assetname_ord_rule
+    assetname_ord_rule(rep, F, "KEY-ord")
     from ruleutil import value_sub_total_rule
     value_sub_total_rule(rep, F)
     from ruleutil import int_range_rule
